@@ -44,10 +44,40 @@ def pt(p):
     return (num(p[0]), num(p[1]))
 
 
-def jordan_of(obj, k):
+def _chain_key(jordan):
+    """(bbox centre x, y, signed shoelace area of the control polygon): invariant under
+    splitting, enough to tell the boundary curves of one shape apart."""
+    xs, ys, pts = [], [], []
+    for seg in jordan.segments:
+        for p in seg.ctrlpoints:
+            xs.append(float(p[0]))
+            ys.append(float(p[1]))
+        for p in seg.ctrlpoints[:-1]:
+            pts.append((float(p[0]), float(p[1])))
+    area = 0.0
+    for i in range(len(pts)):
+        x0, y0 = pts[i]
+        x1, y1 = pts[(i + 1) % len(pts)]
+        area += x0 * y1 - x1 * y0
+    return ((min(xs) + max(xs)) / 2, (min(ys) + max(ys)) / 2, area / 2)
+
+
+def jordan_of(obj, k, key=None):
+    """The k-th boundary curve of a shape.  The order of the curves of a composite shape is
+    decided by comparing float areas and is not preserved by copies when areas tie up to
+    rounding, so twins select the curve by its geometric key when one is recorded."""
     if isinstance(obj, JordanCurve):
         return obj
-    return obj.jordans[k]
+    jordans = obj.jordans
+    if key is None or len(jordans) <= 1:
+        return jordans[k]
+    best, bestd = None, None
+    for j in jordans:
+        cx, cy, ar = _chain_key(j)
+        d = abs(cx - key[0]) + abs(cy - key[1]) + abs(ar - key[2])
+        if bestd is None or d < bestd:
+            best, bestd = j, d
+    return best
 
 
 _PLOTTER = None
@@ -98,13 +128,13 @@ def perform(step, objs):
     if op == "deepcopy":
         return _copy.deepcopy(a)
     if op == "simple_from_jordan":
-        return SimpleShape(jordan_of(a, step["k"]))
+        return SimpleShape(jordan_of(a, step["k"], step.get("kkey")))
     if op == "jcopy":
-        return _copy.copy(jordan_of(a, step["k"]))
+        return _copy.copy(jordan_of(a, step["k"], step.get("kkey")))
     if op == "jinv":
-        return ~jordan_of(a, step["k"])
+        return ~jordan_of(a, step["k"], step.get("kkey"))
     if op == "jabs":
-        return abs(jordan_of(a, step["k"]))
+        return abs(jordan_of(a, step["k"], step.get("kkey")))
     if op == "area":
         return float(a)
     if op == "bool":
@@ -112,11 +142,11 @@ def perform(step, objs):
     if op == "moment":
         return IntegrateShape.polynomial(a, step["ea"], step["eb"])
     if op == "jlen":
-        return float(jordan_of(a, step["k"]))
+        return float(jordan_of(a, step["k"], step.get("kkey")))
     if op == "jarea":
         from shapepy.jordancurve import IntegrateJordan
 
-        return IntegrateJordan.area(jordan_of(a, step["k"]))
+        return IntegrateJordan.area(jordan_of(a, step["k"], step.get("kkey")))
     if op == "box":
         return a.box()
     if op == "in_point":
@@ -124,12 +154,12 @@ def perform(step, objs):
     if op == "contains_point":
         return a.contains_point(pt(step["p"]), step["boundary"])
     if op == "points":
-        return jordan_of(a, step["k"]).points(step["n"])
+        return jordan_of(a, step["k"], step.get("kkey")).points(step["n"])
     if op == "seg_derivate":
-        segs = jordan_of(a, step["k"]).segments
+        segs = jordan_of(a, step["k"], step.get("kkey")).segments
         return segs[step["i"] % len(segs)].derivate(step["times"]).ctrlpoints
     if op == "seg_eval":
-        segs = jordan_of(a, step["k"]).segments
+        segs = jordan_of(a, step["k"], step.get("kkey")).segments
         return [segs[step["i"] % len(segs)](num(step["t"]))]
     if op == "str":
         return str(a)
@@ -140,17 +170,17 @@ def perform(step, objs):
     if op == "in_shape":
         return b in a
     if op == "contains_jordan":
-        return a.contains_jordan(jordan_of(b, step["k"]), step["boundary"])
+        return a.contains_jordan(jordan_of(b, step["k"], step.get("kkey")), step["boundary"])
     if op == "eq":
         return a == b
     if op == "ne":
         return a != b
     if op == "jinter":
-        return jordan_of(a, step["ka"]).intersection(
-            jordan_of(b, step["kb"]), step["equal_beziers"], step["end_points"]
+        return jordan_of(a, step["ka"], step.get("kakey")).intersection(
+            jordan_of(b, step["kb"], step.get("kbkey")), step["equal_beziers"], step["end_points"]
         )
     if op == "jand":
-        return jordan_of(a, step["ka"]) & jordan_of(b, step["kb"])
+        return jordan_of(a, step["ka"], step.get("kakey")) & jordan_of(b, step["kb"], step.get("kbkey"))
     # ---- in place
     if op == "move":
         v = pt(step["v"])
@@ -175,11 +205,11 @@ def perform(step, objs):
     if op == "invert":
         return a.invert()
     if op == "split":
-        return jordan_of(a, step["k"]).split(
+        return jordan_of(a, step["k"], step.get("kkey")).split(
             list(step["idx"]), [num(n) for n in step["nodes"]]
         )
     if op == "clean":
-        return jordan_of(a, step["k"]).clean()
+        return jordan_of(a, step["k"], step.get("kkey")).clean()
     raise ValueError(f"unknown op {op!r}")
 
 
